@@ -45,6 +45,15 @@ def gen_cases(tier, seed):
         role = "c" if r.random() < 0.9 else "s"
         ops = gen_shape_ops(r, sch, role, big_ok=(i % (10 if tier == "quick" else 4) == 0))
         add("shape", [role, hx(raw)] + ops, "shape-" + ("client" if role == "c" else "server"), model=is_ascii(raw))
+    # the same shaping over a transport that accepts only a few bytes per write (short writes: every record must be written
+    # with write_all semantics, padding-only records included) -- implementation + oracle only (seed C04-4)
+    for i in range(60 if tier == "quick" else 600):
+        txt = gen_scheme(r, over="safe", fancy=r.random() < 0.3, junk=False)
+        raw = txt.encode()
+        sch = Scheme(raw)
+        ops = gen_shape_ops(r, sch, "c", big_ok=False)
+        k = r.choice([1, 3, 7, 16, 100, 500])
+        add("shape", ["c", hx(raw), "maxw=%d" % k] + ops, "shape-short-writes", model=False)
     # boundary table: one size s, payload lengths around it, at packet 1 and packet 2
     sizes = [1, 7, 8, 9, 30, 65527, 65528, 65529, 65535, 65536, 70000, 2**31, 2**32 - 1, 2**63]
     for s in sizes:
